@@ -1,5 +1,93 @@
-import TshVerif.Model.ConvBash
+/-
+  C01 - Bash target preserves scalar expression and control-flow semantics.
+
+  Proved here, about the model of transpiler.go + converters/bash/converter.go (which the check ties
+  to the real code byte for byte on every run) and for EVERY well-formed AST (`wfStmts`, checked on
+  every AST the real parser returns):
+    * the emitted script is the shebang, the helper routines, and a line sequence of the
+      grammar `Shape .blk` -- every `if` has its `fi`, every `while` its `done`, the guarded
+      increment and the break-unless line of a loop sit where the `for` meaning needs them
+      (increment first, then the condition statements, then the exit test, then the body);
+    * **every loop has its own first-iteration flag** `_fv<n>`: the flags are numbered 0,1,2,… in
+      the order the loops start, no number is used twice (the state `forCounter` of the anchor);
+      the guarded increment of a loop tests and sets the flag of that very loop (it is part of the
+      grammar: `incrStart n … incrFlagSet n` inside `forFlagInit n`);
+    * expressions never emit control-flow lines and never touch the loop stack;
+    * helper variables `_h<n>` are allocated by a strictly increasing counter.
+  What a theorem cannot reach - that /bin/bash gives these lines the Go meaning - is decided by the
+  reference-interpreter oracle of the check (DESIGN.md, C01).
+-/
+import TshVerif.Lemmas.BashStmt
 namespace Tsh.C01
-open Tsh Tsh.Bash
+open Tsh Tsh.Tr Tsh.Bash
+
+/-- **Shape of every emitted bash script.** -/
+theorem compile_shape (p : Program) (hw : wfStmts p = true) (ls : List Line) (h : compile p = .ok ls) :
+    ∃ (st : St) (body : List Line) (n : Nat), ls = .shebang :: (helperLines st ++ body) ∧ Shape .blk 0 n body := by
+  unfold compile at h
+  split at h
+  · rename_i u s hrun
+    simp at h
+    unfold evalProgram at hrun
+    obtain ⟨_, s1, h1, hrun⟩ := bind_ok hrun
+    obtain ⟨_, s2, h2, h3⟩ := bind_ok hrun
+    have e1 : s1 = { ({} : St) with startCode := [.shebang] } := by
+      have : addStartLine .shebang ({} : St) = .ok ((), s1) := h1
+      simp [addStartLine, Tr.modify] at this
+      exact this.symm
+    have e2 := evalStmts_eff p hw _ _ _ h2
+    have e3 : s = s2 := by
+      have : (pure () : BM Unit) s2 = .ok (u, s) := h3
+      exact (pure_ok this).2
+    obtain ⟨body, hc, hs⟩ := e2.code
+    refine ⟨s, body, s2.forCounter, ?_, ?_⟩
+    · rw [← h, e3]
+      unfold dumpLines
+      rw [e2.startCode, hc, e1]
+      simp
+    · rw [e1] at hs; exact hs
+  · simp at h
+  · simp at h
+
+/-- **No two loops share a first-iteration flag**: the `_fv<n>=` initialisations of the script are
+    numbered 0, 1, …, n-1 in script order. -/
+theorem loop_flags_numbered (p : Program) (hw : wfStmts p = true) (ls : List Line) (h : compile p = .ok ls) :
+    ∃ (st : St) (body : List Line) (n : Nat), ls = .shebang :: (helperLines st ++ body) ∧
+      flagInits body = List.range' 0 n := by
+  obtain ⟨st, body, n, hl, hs⟩ := compile_shape p hw ls h
+  exact ⟨st, body, n, hl, by simpa using hs.flags⟩
+
+theorem loop_flags_distinct (p : Program) (hw : wfStmts p = true) (ls : List Line) (h : compile p = .ok ls) :
+    ∃ (st : St) (body : List Line), ls = .shebang :: (helperLines st ++ body) ∧ (flagInits body).Nodup := by
+  obtain ⟨st, body, n, hl, hf⟩ := loop_flags_numbered p hw ls h
+  exact ⟨st, body, hl, by rw [hf]; exact List.nodup_range'⟩
+
+/-- expressions (operands, conditions, arguments) emit only simple commands and leave the loop
+    and function stacks and counters alone -/
+theorem expressions_emit_simple_lines (e : Expr) (used : Bool) (s s' : St) (vs : List String)
+    (h : evalExpr conv e used s = .ok (vs, s')) :
+    s'.fors = s.fors ∧ s'.forCounter = s.forCounter ∧ ∃ new, s'.code = new ++ s.code ∧ ∀ l ∈ new, l.isSimple = true := by
+  have f := (evalExpr_simple e used).frame _ _ _ h
+  exact ⟨f.fors, f.forCounter, f.code⟩
+
+/-- helper variables are handed out by a strictly increasing counter: two requests never return the same name index -/
+theorem helper_counter_increases (s s' : St) (h : String) (hr : nextHelperVar s = .ok (h, s')) :
+    h = s!"_h{s.varCounter}" ∧ s'.varCounter = s.varCounter + 1 := by
+  simp [nextHelperVar] at hr
+  obtain ⟨rfl, rfl⟩ := hr
+  exact ⟨rfl, rfl⟩
+
+/-! non-vacuity: a concrete program with a nested loop, an if/else-if/else chain and a function is well-formed,
+    compiles, and its two loops get the flags 0 and 1 -/
+private def x : Var := { name := "x", vt := ⟨.int, false⟩, global := true, pub := false }
+private def sample : Program :=
+  [ .varDef [x] [.intLit 0],
+    .forS (some (.varDef [x] [.intLit 0])) (.compare "<" (.varEval x) (.intLit 3)) (some (.assign [x] [.binary "+" (.varEval x) (.intLit 1)]))
+      [ .forS none (.boolLit true) none [.brk],
+        .ifS (.compare "==" (.varEval x) (.intLit 1)) [.print [.varEval x]] [(.boolLit false, [])] [.cont] ],
+    .funcDef "f" false [] [] [.ret []] ]
+
+example : wfStmts sample = true := by decide
+#guard (match compile sample with | .ok ls => flagInits ls | _ => []) == [0, 1]
 
 end Tsh.C01
